@@ -131,3 +131,13 @@ package service
 //@ ensures nonnil(tbt[t.name]) && tbt[t.name][t.value] != nil
 //@ ensures klog.dmin(tbt[t.name][t.value].Total) == old(before) + klog.dmin(d) && tbt[t.name][t.value].Count == old(cnt) + 1
 //@ ensures implies(old(had), tbt[t.name][t.value] == old(tbt[t.name][t.value]))
+//@ ensures implies(!old(had), tbt[t.name][t.value].keyForSort == t.name + "=" + t.value)
+
+// tags.go — the order of the rows of `klog tags` (property C14): every statistics object is created with the sort key
+// name + "=" + value, and the list is sorted by comparing exactly these keys. Since "=" is not a tag-name character,
+// the keys of one name share the prefix name= and therefore form one contiguous run that starts with the bare tag
+// (key name=): the value rows printed under a tag row are the values of that tag. (The contiguity argument is on
+// paper; sort.Slice is a dependency.)
+//@ func (totalByTag).toSortedList$1
+//@ requires 0 <= i && i < len(outer_result) && 0 <= j && j < len(outer_result) && outer_result[i] != nil && outer_result[j] != nil
+//@ ensures result0 == (outer_result[i].keyForSort < outer_result[j].keyForSort)
